@@ -496,7 +496,11 @@ class NpProxy:
 
     def isclose(self, a, b, rtol=1e-05, atol=1e-08, equal_nan=False):
         def f(x, y):
-            return BoolT(_absz(toz(x) - toz(y)) <= toz(atol) + toz(rtol) * _absz(toz(y)))
+            # exact equality implies closeness: try that first (an equality query is far easier for the
+            # solver than a two-sided tolerance over rational functions); sound, no fork needed
+            if _proved_equal([(x, y)]):
+                return True
+            return _close_term(x, y, rtol, atol)
         if not (is_sym(a) or is_sym(b)):
             return _np.isclose(_asfloat_ifnum(a), _asfloat_ifnum(b), rtol=rtol, atol=atol, equal_nan=equal_nan)
         return _emap2(f, lambda x, y: bool(_np.isclose(x, y, rtol=rtol, atol=atol)), a, b)
@@ -504,17 +508,18 @@ class NpProxy:
     def allclose(self, a, b, rtol=1e-05, atol=1e-08, equal_nan=False):
         if not (is_sym(a) or is_sym(b)):
             return _np.allclose(_asfloat_ifnum(a), _asfloat_ifnum(b), rtol=rtol, atol=atol)
-        r = self.isclose(a, b, rtol=rtol, atol=atol)
-        if isinstance(r, _np.ndarray):
-            # one conjunction, one decision (numpy semantics: all elements close)
-            conj = []
-            for e in r.flat:
-                if isinstance(e, BoolT):
-                    conj.append(e.z)
-                elif not e:
-                    return False
-            return bool(BoolT(z3.And(*conj))) if conj else True
-        return bool(r)
+        A_, B_ = _np.broadcast_arrays(_np.asarray(a, dtype=object), _np.asarray(b, dtype=object))
+        pairs = [(x, y) for x, y in zip(A_.ravel(), B_.ravel())]
+        sym_pairs = []
+        for x, y in pairs:
+            if isinstance(x, Term) or isinstance(y, Term):
+                sym_pairs.append((x, y))
+            elif not _np.isclose(float(x), float(y), rtol=rtol, atol=atol):
+                return False
+        if not sym_pairs or _proved_equal(sym_pairs):
+            return True
+        conj = [_close_term(x, y, rtol, atol).z for x, y in sym_pairs]
+        return bool(BoolT(z3.And(*conj)))
 
     def where(self, cond, *args):
         return _np.where(cond, *args)
@@ -573,6 +578,30 @@ class NpProxy:
         def __getattr__(self, k):
             return getattr(_np.emath, k)
     emath = _Emath()
+
+
+def _close_term(x, y, rtol, atol):
+    """|x - y| <= atol + rtol*|y| without If-terms: |y| is a number, or the sign of y is forked on"""
+    if isnum(y):
+        tol = toz(atol + rtol * abs(float(y)))
+    else:
+        yz = toz(y)
+        tol = toz(atol) + toz(rtol) * (yz if E.decide(yz >= 0) else -yz)
+    d = toz(x) - toz(y)
+    return BoolT(z3.And(d <= tol, -d <= tol))
+
+
+def _proved_equal(pairs, timeout_ms=2000):
+    """True when the path hypotheses prove x == y for every pair (short budget; False = not known)"""
+    goal = z3.And(*[toz(x) == toz(y) for x, y in pairs])
+    goal = z3.simplify(goal)
+    if z3.is_true(goal):
+        return True
+    if z3.is_false(goal):
+        return False
+    v, m, t = core.z3_check(E.hyps(), z3.Not(goal), timeout_ms)
+    E.stats['eq_lifts'] = E.stats.get('eq_lifts', 0) + 1
+    return v == 'unsat'
 
 
 def _asfloat_ifnum(x):
